@@ -1,7 +1,157 @@
 import FormulaeModel.Driver.Base
-namespace FormulaeModel.Driver.C13
-open Lean FormulaeModel FormulaeModel.Driver
+import FormulaeModel.Model.Coding
+import FormulaeModel.Spec.C13
+/-
+Driver operations of C13.
 
-def handle (_op : String) (_j : Json) : Option Json := none
+* `c13_code`    `Treatment(arg).code_*` / `Sum(arg).code_*` on a list of levels: the model's answer,
+                and the specification (`Spec.C13.codingHolds`: shape, rows, zero sums, basis with
+                the explicit inverse, labels) evaluated on the *implementation's* matrix and labels.
+* `c13_design`  a factor written in one of the spellings, evaluated on a column: the model's
+                answer (`evalSpelling`), the guards (`inScope`, `aliasOnBox`) and the specification
+                (`Spec.C13.outcomeHolds`) on the implementation's levels / contrast matrix / labels /
+                design rows.
+-/
+namespace FormulaeModel.Driver.C13
+open Lean FormulaeModel FormulaeModel.Driver FormulaeModel.Coding FormulaeModel.Spec.C13
+
+def optStr (j : Json) (k : String) : Option String :=
+  match j.getObjVal? k with
+  | .ok (.str s) => some s
+  | _ => none
+
+def optStrList (j : Json) (k : String) : Option (List String) :=
+  match j.getObjVal? k with
+  | .ok (.arr a) => some (a.toList.filterMap fun x => match x with | .str s => some s | _ => none)
+  | _ => none
+
+def intList (j : Json) : List Int :=
+  match j with
+  | .arr a => a.toList.filterMap fun x => (x.getInt?).toOption
+  | _ => []
+
+def matrixOf (j : Json) (k : String) : IMatrix := (getArr j k).map intList
+
+def jMatrix (m : IMatrix) : Json :=
+  Json.arr (m.map fun row => Json.arr (row.map fun (x : Int) => toJson x).toArray).toArray
+
+def errJson (e : Err) : Json := Json.mkObj [("err", e.tag), ("cls", e.pyClass)]
+
+def cmJson (cm : ContrastMatrix) : Json :=
+  Json.mkObj [("matrix", jMatrix cm.matrix), ("labels", jStrs cm.labels)]
+
+def contrastOf (enc : String) (arg : Option String) : Contrast :=
+  if enc == "Sum" then .sum arg else .treatment arg
+
+def implObj (j : Json) : Json := (j.getObjVal? "impl").toOption.getD Json.null
+def implIsErr (j : Json) : Bool := (optStr (implObj j) "err").isSome
+
+def verdict (b : Bool) : Json := if b then "holds" else "fails"
+
+/-- individual predicates of the coding, for diagnostics -/
+def codeParts (c : Contrast) (spans : Bool) (levels : List String) (M : IMatrix)
+    (labels : List String) : Json :=
+  let n := levels.length
+  match c, spans with
+  | .treatment ref, false =>
+    match referenceIndex? ref levels with
+    | some r => Json.mkObj [("index", (r : Nat)), ("shape_rows", treatmentReduced levels r M labels),
+        ("basis", treatmentBasis n r M), ("labels", indicatorOfLabel levels labels M)]
+    | none => Json.mkObj [("index", Json.null)]
+  | .treatment _, true =>
+    Json.mkObj [("identity", treatmentFull levels M labels),
+      ("labels", indicatorOfLabel levels labels M)]
+  | .sum om, false =>
+    match omitIndex? om levels with
+    | some o => Json.mkObj [("index", (o : Nat)), ("shape_rows_zero_sum", sumReduced levels o M labels),
+        ("basis", sumBasis n o M), ("labels", plusOneAtLabel levels labels M 0)]
+    | none => Json.mkObj [("index", Json.null)]
+  | .sum om, true =>
+    match omitIndex? om levels with
+    | some o => Json.mkObj [("index", (o : Nat)), ("full", sumFull levels o M labels),
+        ("spans", spansIndicators n o M), ("labels", plusOneAtLabel levels labels M 1)]
+    | none => Json.mkObj [("index", Json.null)]
+
+def runCode (j : Json) : Json :=
+  let enc := getStr j "enc"
+  let arg := optStr j "arg"
+  let levels := strList j "levels"
+  let spans := getBool j "with"
+  let c := contrastOf enc arg
+  let model := match c.code spans levels with
+    | .ok cm => okJ (cmJson cm)
+    | .error e => errJson e
+  let impl := implObj j
+  let spec :=
+    if !(decide levels.Nodup) then Json.mkObj [("verdict", "unspecified"), ("why", "levels not distinct")]
+    else if implIsErr j then
+      Json.mkObj [("verdict", verdict (!contrastResolvable c spans levels)), ("expect",
+        if contrastResolvable c spans levels then "evaluated" else "refused")]
+    else
+      let M := matrixOf impl "matrix"
+      let labels := strList impl "labels"
+      Json.mkObj [("verdict", verdict ((codingHolds c spans levels M labels).getD false)),
+        ("expect", if contrastResolvable c spans levels then "evaluated" else "refused"),
+        ("parts", codeParts c spans levels M labels)]
+  Json.mkObj [("model", model), ("spec", spec)]
+
+def contrastArgOf (j : Json) (k : String) : ContrastArg :=
+  match j.getObjVal? k with
+  | .ok o =>
+    match optStr o "cls", optStr o "inst" with
+    | some "Sum", _ => .cls .Sum
+    | some _, _ => .cls .Treatment
+    | none, some enc => .inst (contrastOf enc (optStr o "arg"))
+    | none, none => .none
+  | _ => .none
+
+def spellingOf (j : Json) : Spelling :=
+  match getStr j "kind" with
+  | "c" => .c (contrastArgOf j "contrast") (optStrList j "levels")
+  | "t" => .t (optStr j "arg") (optStrList j "levels")
+  | "s" => .s (optStr j "arg") (optStrList j "levels")
+  | "cc" => .cc (contrastArgOf j "c1") (optStrList j "l1") (contrastArgOf j "c2") (optStrList j "l2")
+  | "tc" => .tc (contrastArgOf j "c1") (optStrList j "l1") (optStr j "arg")
+  | "sc" => .sc (contrastArgOf j "c1") (optStrList j "l1") (optStr j "arg")
+  | _ => .plain
+
+def evJson (ev : Evaluated) : Json :=
+  Json.mkObj [("levels", jStrs ev.levels), ("matrix", jMatrix ev.contrast.matrix),
+    ("labels", jStrs ev.contrast.labels), ("value", jMatrix ev.value),
+    ("spans", ev.spansIntercept)]
+
+def runDesign (j : Json) : Json :=
+  let d : Data := ⟨strList j "data", optStrList j "ordered"⟩
+  let sp := spellingOf ((j.getObjVal? "spelling").toOption.getD Json.null)
+  let spans := getBool j "spans"
+  let model := match evalSpelling d sp spans with
+    | .ok ev => okJ (evJson ev)
+    | .error e => errJson e
+  let impl := implObj j
+  let out : Option Evaluated :=
+    if implIsErr j then none
+    else some ⟨strList impl "levels", ⟨matrixOf impl "matrix", strList impl "labels"⟩,
+      matrixOf impl "value", getBool impl "spans"⟩
+  let scope := inScope d sp
+  let (contrast, explicit) := meaning sp
+  let parts := match out with
+    | some ev => Json.mkObj [
+        ("coding", match codingHolds contrast ev.spansIntercept ev.levels ev.contrast.matrix ev.contrast.labels with
+          | some b => toJson b | none => Json.null),
+        ("levels_order", levelsOK d explicit ev.levels),
+        ("rows", rowsFollowLevels ev.levels d.values ev.contrast.matrix ev.value),
+        ("spans", ev.spansIntercept == spans)]
+    | none => Json.mkObj [("resolvable", optionResolvable d sp spans)]
+  let spec :=
+    if !scope then Json.mkObj [("verdict", "unspecified"), ("why", "outside the scope (levels are not an arrangement of the observed levels)")]
+    else Json.mkObj [("verdict", verdict (outcomeHolds d sp spans out)), ("parts", parts)]
+  Json.mkObj [("model", model), ("spec", spec), ("in_scope", scope),
+    ("classes", jStrs (if aliasOnBox sp then ["aliasOnBox"] else []))]
+
+def handle (op : String) (j : Json) : Option Json :=
+  match op with
+  | "c13_code" => some (runCode j)
+  | "c13_design" => some (runDesign j)
+  | _ => none
 
 end FormulaeModel.Driver.C13
